@@ -16,7 +16,6 @@ require (
 	github.com/klauspost/compress v1.17.4 // indirect
 	github.com/kr/session v0.2.1 // indirect
 	github.com/xi2/xz v0.0.0-20171230120015-48954b6210f8 // indirect
-	golang.org/x/crypto v0.24.0 // indirect
 	golang.org/x/mod v0.22.0 // indirect
 	golang.org/x/sync v0.10.0 // indirect
 	golang.org/x/sys v0.29.0 // indirect
@@ -29,6 +28,7 @@ replace github.com/indexsupply/shovel => /repo
 require (
 	github.com/holiman/uint256 v1.2.4
 	github.com/jackc/pgx/v5 v5.6.0
+	golang.org/x/crypto v0.24.0
 	golang.org/x/tools v0.29.0
 	nhooyr.io/websocket v1.8.10
 )
